@@ -54,6 +54,7 @@ type Entropy struct {
 	fixed         []byte
 	fixedChunk    int
 	lastFillStart int
+	src           io.Reader // content comes from a wrapped reader (XOF / hash streams)
 
 	Delivered []byte // exactly the bytes handed to the consumer
 	Reads     int
@@ -91,6 +92,16 @@ func NewEntropy(r *core.Run, cfg EntropyCfg) *Entropy {
 		e.errAt = t.Draw(core.SF, w)
 		e.errKind = t.Draw(core.SF, 3)
 	}
+	return e
+}
+
+// WrapReader delivers the bytes of src (which must never fail, e.g. a SHAKE
+// instance) with tape-driven chunking and errors: the simulator-owned version of
+// a caller-supplied XOF.
+func WrapReader(r *core.Run, src io.Reader, cfg EntropyCfg) *Entropy {
+	cfg.Degenerate = false
+	e := NewEntropy(r, cfg)
+	e.src = src
 	return e
 }
 
@@ -197,6 +208,14 @@ func (e *Entropy) count(id int) {
 }
 
 func (e *Entropy) fill(p []byte) {
+	if e.src != nil {
+		if _, err := io.ReadFull(e.src, p); err != nil {
+			panic("simio: wrapped source failed: " + err.Error())
+		}
+		e.off += len(p)
+		e.Delivered = append(e.Delivered, p...)
+		return
+	}
 	for i := range p {
 		if e.content == -1 {
 			if e.off < len(e.fixed) {
